@@ -7,7 +7,8 @@ TRUSTED_BASE = [
     "Coq 8.16.1 kernel (coqc, full .vo build; vm_compute only in generated Calib/OrderingsInst lemmas and Examples; no native_compute)",
     "axioms: none (every property theorem prints 'Closed under the global context'; audited on every run)",
     "hand-written Gallina model coq/theories/{World,SlotMap,Fub,Unbounded,Ordered,Adapters,Step}.v of the crate: all theorems are about it",
-    "correspondence check: Rust harness /verif/harness (rebuilt against /repo's working tree), extraction (ExtrOcamlBasic only, no Extract Constant; nat/N/Z stay inductive), ocaml/driver.ml + hist.ml, tools/gen.py, tools/cmp.py, tools/tracelib.py - sampled, not exhaustive",
+    "correspondence check: Rust harness /verif/harness (rebuilt against /repo's working tree), extraction (ExtrOcamlBasic only, no Extract Constant; nat/N/Z stay inductive), ocaml/driver.ml + hist.ml, tools/gen.py (sampled), tools/smallscope.py (every op sequence over a small alphabet up to a small depth), tools/cmp.py, tools/tracelib.py - sampled / bounded, not exhaustive",
+    "escalation rule: when only a generated lemma about sequential code (GroupLoopInst.grouploop_ok, PollSkelInst.poll_skeleton_ok) fails for the current text, 6000 more scenario histories and the level-2 enumeration decide (agreement everywhere -> accepted, noted in the evidence); a failing lemma about concurrent steps (ProtocolInst, RefcountInst, OrderingsInst) is always reported, fbharness --stress (real threads) is only the search for a replay",
     "calibration: budget / minimum group capacity / growth factor measured by probe histories on the real crate (tools/build.py) -> coq/generated/Calib.v; theorems hold for every params_ok record",
     "dependencies modelled, not verified: diatomic-waker (register / one-shot notify), cordyceps MpscQueue (FIFO; Empty/Inconsistent only while a producer is in flight), spin::SpinMutex, alloc (Box contents do not move, drop glue, Vec/BinaryHeap growth policy)",
     "hooks under cfg(futures_buffered_verif) in /repo/src (probes, forced Inconsistent, counter seeding, MergeUnbounded::verif_with_capacity)",
